@@ -5,6 +5,10 @@ import SynRBLModel.Driver.Ops.Aam
 import SynRBLModel.Driver.Ops.FG
 import SynRBLModel.Driver.Ops.Normalize
 import SynRBLModel.Driver.Ops.RuleDB2
+import SynRBLModel.Driver.Ops.Merge
+import SynRBLModel.Driver.Ops.McsSelect
+import SynRBLModel.Driver.Ops.Cache
+import SynRBLModel.Driver.Ops.Standardize
 /-! Operation table of the driver: every layer contributes a partial dispatcher `dispatch? : String → Json → Option (R Json)`. -/
 namespace SynRBL.Drv
 open Lean
@@ -15,7 +19,11 @@ def dispatchers : List (String → Json → Option (R Json)) := [
   Aam.dispatch?,
   FG.dispatch?,
   Normalize.dispatch?,
-  RuleDB2.dispatch?
+  RuleDB2.dispatch?,
+  Merge.dispatch?,
+  McsSelect.dispatch?,
+  Cache.dispatch?,
+  Standardize.dispatch?
 ]
 
 def dispatch (op : String) (j : Json) : R Json :=
